@@ -239,8 +239,23 @@ fn gen_case(rng: &mut Rng, known: &Known) -> Case {
     let mut text = String::new();
     let mut toks: Vec<serde_json::Value> = Vec::new();
     let mut excluded = 0;
+    let mut after_paste = false;
     for i in 0..n {
         let (mut lex, mut class) = instance(rng);
+        // a paste operator is often followed at once by an identifier that begins like a directive
+        // word (`NAME#else2`, `x#define_`, `x#endifs`): one identifier, not a directive
+        let glued = after_paste && rng.chance(1, 2);
+        if glued {
+            let w = ["ifdef", "ifndef", "else", "endif", "define"][rng.below(5)];
+            lex = match rng.below(4) {
+                0 => format!("{w}{}", rng.below(10)),
+                1 => format!("{w}_"),
+                2 => format!("{w}_{}", ident(rng).0),
+                _ => format!("{w}s"),
+            };
+            class = "id-directive-prefix";
+        }
+        after_paste = lex == "#";
         // exclusion by construction of input classes with a listed (known) finding
         let mut guard = 0;
         while known.has(&format!("C14.mismatch:{class}")) && guard < 20 {
@@ -259,6 +274,10 @@ fn gen_case(rng: &mut Rng, known: &Known) -> Case {
                 sclass = x.1;
                 guard += 1;
                 excluded += 1;
+            }
+            if glued {
+                sep = "".into();
+                sclass = "none";
             }
             if sclass == "none" {
                 // only where the reference split is unchanged
